@@ -30,3 +30,5 @@
 ; travelers of the aggregation's input have a value of that type name (defined by contract axioms)
 (declare-fun ftype (Any) Str)
 (declare-fun tcnt (Str Int) Int)
+; csum(k): total number of items the first k inner steps of both() produced (defined by contract axioms)
+(declare-fun csum (Int) Int)
